@@ -556,11 +556,16 @@ struct Stats {
   distinct: std::collections::BTreeSet<String>,
 }
 
-fn run_scenario(scn: usize, seed: u64, dense: bool, npos: usize, tr: &mut Tracer, st: &mut Stats) -> Result<()> {
-  let mut r = rng(seed, 17_000_000 + scn as u64);
-  let scratch = Scratch::new("corrupt");
-  let root = scratch.join("idx");
-  let plan = build_index(&root, &mut r, scn % 2 == 1)?;
+/// One scenario, run inside a child process (`svh corrupt --child`): a damaged file can make the
+/// code under test abort the whole process (allocation failure, stack overflow), which
+/// `catch_unwind` cannot contain. Before every probe the child flushes its trace and writes the
+/// probe's descriptor to `inflight`; if the child dies the parent records that probe as a panic
+/// and restarts the scenario behind it (`skip`).
+#[allow(clippy::too_many_arguments)]
+fn run_scenario(scn: usize, seed: u64, dense: bool, npos: usize, tr: &mut Tracer, skip: usize, inflight: &Path, root: &Path, plan: Value) -> Result<()> {
+  // the index was built (and is put back to its pristine bytes before every start) by the parent
+  let mut r = rng(seed, 18_000_000 + scn as u64);
+  let root = root.to_path_buf();
   let pristine_files = read_tree(&root)?;
   let pristine = probe(&root, true);
   // the probe may trim the log / create files: put the pristine bytes back after every probe
@@ -592,17 +597,26 @@ fn run_scenario(scn: usize, seed: u64, dense: bool, npos: usize, tr: &mut Tracer
     .iter()
     .map(|(n, d)| json!({"name": n, "class": file_class(n), "len": d.len()}))
     .collect();
-  tr.emit(json!({
-    "ev": "reset", "scn": scn, "dense": dense, "files": files_json, "plan": plan,
-    "obs": pristine.obs, "replay": pristine.replay, "pending": pristine.pending,
-    "queries": battery().iter().map(|b| b.0).collect::<Vec<_>>(),
-  }));
+  if skip == 0 {
+    tr.emit(json!({
+      "ev": "reset", "scn": scn, "dense": dense, "files": files_json, "plan": plan,
+      "obs": pristine.obs, "replay": pristine.replay, "pending": pristine.pending,
+      "queries": battery().iter().map(|b| b.0).collect::<Vec<_>>(),
+    }));
+  }
+  let mut idx = 0usize; // probe index within the scenario
   for (name, data) in pristine_files.iter() {
     let class = file_class(name);
     let ptrs = if class == "manifest" { pointer_classes(data) } else { Vec::new() };
-    st.files += 1;
+    let first = idx;
     let mut nfile = 0usize;
     for dmg in damages(data.len(), dense, npos, class == "manifest", &mut r) {
+      let this = idx;
+      idx += 1;
+      nfile += 1;
+      if this < skip {
+        continue;
+      }
       let (kind, off, mask, bytes) = match dmg {
         Damage::Flip(off, m) => {
           let mut b = data.clone();
@@ -611,13 +625,28 @@ fn run_scenario(scn: usize, seed: u64, dense: bool, npos: usize, tr: &mut Tracer
         }
         Damage::Trunc(n) => ("trunc", n, 0u8, data[..n].to_vec()),
       };
+      // pointer class: for a flip the token of the flipped byte, for a truncation none
+      let ptr = if kind == "flip" && !ptrs.is_empty() { ptrs[off].clone() } else { String::new() };
+      tr.flush();
+      std::fs::write(
+        inflight,
+        json!({
+          "index": this,
+          "event": {
+            "ev": "probe", "file": name, "class": class, "ptr": ptr, "kind": kind, "off": off,
+            "mask": mask, "open_ok": false, "reader_ok": false, "search_ok": false,
+            "panic": true, "obs": [], "replay_ok": false, "replay": [],
+            "pending": [], "writer_ok": false, "outcome": "Panic",
+            "err": "the process died during this probe", "diff": "",
+          }
+        })
+        .to_string(),
+      )?;
       std::fs::write(root.join(name), &bytes)?;
       let p = probe(&root, class == "wal");
       restore(name)?;
       restore("wal.log")?;
       let outcome = outcome_class(class, &p, &pristine);
-      // pointer class: for a flip the token of the flipped byte, for a truncation none
-      let ptr = if kind == "flip" && !ptrs.is_empty() { ptrs[off].clone() } else { String::new() };
       let diff = if outcome == "DifferentResults" {
         p.texts
           .iter()
@@ -629,10 +658,6 @@ fn run_scenario(scn: usize, seed: u64, dense: bool, npos: usize, tr: &mut Tracer
       } else {
         String::new()
       };
-      *st.by_outcome.entry(format!("{class}:{outcome}")).or_default() += 1;
-      st.distinct.insert(format!("{class}|{ptr}|{kind}|{mask}|{outcome}|{}", p.replay.len()));
-      st.probes += 1;
-      nfile += 1;
       tr.emit(json!({
         "ev": "probe", "file": name, "class": class, "ptr": ptr, "kind": kind, "off": off,
         "mask": mask, "open_ok": p.open_ok, "reader_ok": p.reader_ok, "search_ok": p.search_ok,
@@ -641,8 +666,13 @@ fn run_scenario(scn: usize, seed: u64, dense: bool, npos: usize, tr: &mut Tracer
         "err": p.err, "diff": diff,
       }));
     }
-    tr.emit(json!({"ev": "file_done", "file": name, "class": class, "len": data.len(), "probes": nfile}));
+    // a restarted child repeats only the file_done lines its predecessor did not reach
+    if first + nfile >= skip {
+      tr.emit(json!({"ev": "file_done", "file": name, "class": class, "len": data.len(), "probes": nfile}));
+    }
   }
+  tr.flush();
+  let _ = std::fs::remove_file(inflight);
   // the index must be pristine again
   let end = probe(&root, true);
   restore("wal.log")?;
@@ -652,35 +682,134 @@ fn run_scenario(scn: usize, seed: u64, dense: bool, npos: usize, tr: &mut Tracer
   Ok(())
 }
 
+fn child_main(args: &Args) -> Result<()> {
+  let seed = args.u64("seed", 1);
+  let scn = args.usize("scn", 0);
+  let skip = args.usize("skip", 0);
+  let dense = args.flag("dense");
+  let npos = args.usize("positions", 200);
+  let part = args.str("part", "");
+  let inflight = args.str("inflight", "");
+  let root = args.str("root", "");
+  let plan: Value = serde_json::from_str(&std::fs::read_to_string(args.str("plan", ""))?)?;
+  let mut tr = Tracer::create(Path::new(&part))?;
+  std::panic::set_hook(Box::new(|_| {}));
+  run_scenario(scn, seed, dense, npos, &mut tr, skip, Path::new(&inflight), Path::new(&root), plan)?;
+  tr.finish();
+  Ok(())
+}
+
+const MAX_DEATHS_PER_SCENARIO: usize = 25;
+
 pub fn main(args: &Args) -> Result<()> {
+  if args.flag("child") {
+    return child_main(args);
+  }
   let seed = args.u64("seed", 1);
   let out = args.str("out", "/verif/out/corrupt.ndjson");
   let n_scn = args.usize("scenarios", 2);
   let dense = args.flag("dense");
   let npos = args.usize("positions", 200);
   let mut tr = Tracer::create(Path::new(&out))?;
-  let mut st = Stats {
-    probes: 0,
-    files: 0,
-    by_outcome: BTreeMap::new(),
-    distinct: Default::default(),
-  };
-  let hook = std::panic::take_hook();
-  std::panic::set_hook(Box::new(|_| {}));
-  let mut res = Ok(());
+  let part = format!("{out}.part");
+  let inflight = format!("{out}.inflight");
+  let exe = std::env::current_exe()?;
+  let mut deaths_total = 0usize;
+  let plan_path = format!("{out}.plan");
   for scn in 0..n_scn {
-    res = run_scenario(scn, seed, dense, npos, &mut tr, &mut st);
-    if res.is_err() {
-      break;
+    let mut skip = 0usize;
+    let mut deaths = 0usize;
+    // one index per scenario, shared by the restarts (segment file names are random)
+    let mut r = rng(seed, 17_000_000 + scn as u64);
+    let scratch = Scratch::new("corrupt");
+    let root = scratch.join("idx");
+    let plan = build_index(&root, &mut r, scn % 2 == 1)?;
+    std::fs::write(&plan_path, plan.to_string())?;
+    let pristine_files = read_tree(&root)?;
+    loop {
+      let _ = std::fs::remove_file(&inflight);
+      // a child that died left its damage (and possibly new files) behind
+      for name in read_tree(&root)?.keys() {
+        if !pristine_files.contains_key(name) {
+          let _ = std::fs::remove_file(root.join(name));
+        }
+      }
+      for (name, data) in pristine_files.iter() {
+        std::fs::write(root.join(name), data)?;
+      }
+      let mut cmd = std::process::Command::new(&exe);
+      cmd.args(["corrupt", "--child", "--seed", &seed.to_string(), "--scn", &scn.to_string(), "--skip", &skip.to_string(),
+                "--positions", &npos.to_string(), "--part", &part, "--inflight", &inflight,
+                "--root", &root.to_string_lossy(), "--plan", &plan_path]);
+      if dense {
+        cmd.arg("--dense");
+      }
+      let status = cmd.status()?;
+      // complete lines of the child's trace
+      let text = std::fs::read_to_string(&part).unwrap_or_default();
+      let complete = match text.rfind('\n') {
+        Some(i) => &text[..=i],
+        None => "",
+      };
+      for line in complete.lines() {
+        if let Ok(v) = serde_json::from_str::<Value>(line) {
+          tr.emit(v);
+        }
+      }
+      if status.success() {
+        break;
+      }
+      let killed_by_kill = {
+        use std::os::unix::process::ExitStatusExt;
+        status.signal() == Some(9)
+      };
+      let infl = std::fs::read_to_string(&inflight).ok().and_then(|t| serde_json::from_str::<Value>(&t).ok());
+      match infl {
+        Some(v) if !killed_by_kill && status.code() != Some(2) => {
+          let mut ev = v["event"].clone();
+          ev["err"] = json!(format!("the process died during this probe ({status})"));
+          tr.emit(ev);
+          skip = v["index"].as_u64().unwrap_or(0) as usize + 1;
+          deaths += 1;
+          deaths_total += 1;
+          if deaths >= MAX_DEATHS_PER_SCENARIO {
+            // enough witnesses; the remaining probes of this scenario are not made
+            break;
+          }
+        }
+        _ => return Err(anyhow!("svh corrupt child for scenario {scn} failed outside a probe: {status}")),
+      }
     }
   }
-  std::panic::set_hook(hook);
-  res?;
+  let _ = std::fs::remove_file(&part);
+  let _ = std::fs::remove_file(&inflight);
+  let _ = std::fs::remove_file(&plan_path);
   let lines = tr.finish();
+  // statistics from the recorded events
+  let mut st = Stats { probes: 0, files: 0, by_outcome: BTreeMap::new(), distinct: Default::default() };
+  for line in std::fs::read_to_string(&out)?.lines() {
+    let e: Value = serde_json::from_str(line)?;
+    match e["ev"].as_str() {
+      Some("probe") => {
+        st.probes += 1;
+        let (class, outcome) = (e["class"].as_str().unwrap_or(""), e["outcome"].as_str().unwrap_or(""));
+        *st.by_outcome.entry(format!("{class}:{outcome}")).or_default() += 1;
+        st.distinct.insert(format!(
+          "{class}|{}|{}|{}|{outcome}|{}",
+          e["ptr"].as_str().unwrap_or(""),
+          e["kind"].as_str().unwrap_or(""),
+          e["mask"],
+          e["replay"].as_array().map(|a| a.len()).unwrap_or(0)
+        ));
+      }
+      Some("file_done") => st.files += 1,
+      _ => {}
+    }
+  }
   println!(
     "{}",
     json!({"scenarios": n_scn, "events": lines, "probes": st.probes, "files": st.files,
-           "distinct": st.distinct.len(), "by_outcome": st.by_outcome, "out": out})
+           "distinct": st.distinct.len(), "by_outcome": st.by_outcome, "process_deaths": deaths_total, "out": out})
   );
   Ok(())
 }
